@@ -280,7 +280,9 @@ func buildEngine(pc *propCfg, variants []string, scratch string) ([]build, error
 			if oerr != nil {
 				return nil, fmt.Errorf("race flavour: %v", oerr)
 			}
-			args = append(args, "-race", "-overlay", ov)
+			// (-race switches on checkptr, which rejects the packed epoll_event access of
+			// the poll_opt poller itself: a tool limitation, not a property)
+			args = append(args, "-race", "-overlay", ov, "-gcflags=all=-d=checkptr=0")
 			env = append(env, "CGO_ENABLED=1")
 		}
 		if tags != "" {
